@@ -17,6 +17,8 @@ os.makedirs(WORK, exist_ok=True)
 env = dict(os.environ, GOFLAGS='-mod=mod', GOPROXY='off', GOSUMDB='off', GOTOOLCHAIN='local')
 env.pop('GOWORK', None)
 env['GZV_EVIDENCE_DIR'] = '/tmp/gzv-evidence-scratch'
+BASE = '/tmp/wt/sweep-base'  # pristine worktree of /repo HEAD: /repo itself is patched and restored by other tools while a sweep runs
+env['GZV_REPO'] = BASE
 SKIP = {'core/stores/redis/redis.go', 'core/stores/kv/store.go', 'tools/goctl/pkg/parser/api/token/token.go', 'core/lang/lang.go',
         'core/collection/set.go', 'core/discov/publisher.go', 'core/stat/usage.go', 'core/timex/ticker.go', 'core/codec/rsa.go'}
 DEPS = {
@@ -53,10 +55,10 @@ def filemap():
     for d in glob.glob('/verif/seeded/*/meta.json'):
         j = json.load(open(d))
         for f in j.get('files_changed', []): m[f].add(j['property'])
-    return {f: sorted(v) for f, v in m.items() if f not in SKIP and os.path.isfile('/repo/' + f)}
+    return {f: sorted(v) for f, v in m.items() if f not in SKIP and os.path.isfile(BASE + '/' + f)}
 
 def lua_mutants(rel, props):
-    src = open('/repo/' + rel).read()
+    src = open(BASE + '/' + rel).read()
     out = []
     n = 0
     def add(s, e, new, kind):
@@ -96,7 +98,7 @@ def gen():
         if a == '--files': only = set(sys.argv[i + 1].split(','))
     files = sorted(f for f in fm if only is None or f in only)
     gofiles = [f for f in files if f.endswith('.go')]
-    r = subprocess.run(['/verif/bin/gzmutate', '-repo', '/repo'] + gofiles, capture_output=True, text=True, check=True)
+    r = subprocess.run(['/verif/bin/gzmutate', '-repo', BASE] + gofiles, capture_output=True, text=True, check=True)
     ms = json.loads(r.stdout)
     for m in ms: m['props'] = fm[m['file']]
     for f in files:
